@@ -139,7 +139,11 @@ impl<T: Qcow2IoOps> Qcow2Dev<T> {
             return Err("Failed to flush refcount block or discard other parts".into());
         }
 
-        //todo: write all dirty refcount_block
+        // The whole table is written below, with every entry made since the
+        // last flush: the refcount blocks these entries point to have to be
+        // on disk before the header is switched to the new table.
+        self.flush_cache(&self.refblock_cache, 0, usize::MAX, false)
+            .await?;
 
         grown_rt.set_refblock_offset(reftable.entries(), refblock_offset);
 
@@ -147,6 +151,10 @@ impl<T: Qcow2IoOps> Qcow2Dev<T> {
         // there, not only the blocks dirtied since the last flush.
         self.flush_table(grown_rt, 0, grown_rt.byte_size()).await?;
         while grown_rt.pop_dirty_blk_idx(None).is_some() {}
+
+        // ... and the new table (and its refcount block) before the header
+        // which points to it
+        self.call_fsync(0, usize::MAX, 0).await?;
 
         // write header
         {
@@ -162,6 +170,10 @@ impl<T: Qcow2IoOps> Qcow2Dev<T> {
             })
             .await?;
         }
+
+        // The old table is about to be released (and its clusters reused):
+        // the header must not point to it any more after a crash.
+        self.call_fsync(0, usize::MAX, 0).await?;
 
         // The old table is released by the caller once it has dropped the
         // reftable write lock: free_clusters() takes that lock for reading.
